@@ -63,32 +63,47 @@ mod verif_c04_shapes {
         assert!(roundtrip_value(&c2) == 16);
         kani::cover!(true);
     }
-    //@harness fns=ValueRecord::write_into,ValueRecord::format,SinglePosFormat1::write_into,read_fonts::ValueRecord::read note="every ValueFormat: metrics absent / all present x one device (VariationIndex) subtable on each of the four device slots (8 enumerated shapes, all field values symbolic), through the offset model - the device offset must come back on the slot it was written for" timeout=1800
+    fn single_pos_with_device_on(slot: u8) {
+        use crate::tables::gpos::{SinglePosFormat1, ValueRecord};
+        use crate::tables::layout::{CoverageFormat1, CoverageTable, DeviceOrVariationIndex};
+        let d1 = DeviceOrVariationIndex::variation_index(kani::any(), kani::any());
+        let vr = ValueRecord::new();
+        let vr = match slot { 0 => vr.with_x_placement_device(d1), 1 => vr.with_y_placement_device(d1), 2 => vr.with_x_advance_device(d1), _ => vr.with_y_advance_device(d1) };
+        let cov = CoverageTable::Format1(CoverageFormat1::new(vec![GlyphId16::new(kani::any())]));
+        let sp = SinglePosFormat1::new(cov, vr);
+        let _ = roundtrip_value(&sp);
+        kani::cover!(true);
+    }
+    //@defaults unit=U04.3 props=C04,C16 tier=thorough level=bounded bound="one shape per harness: a SinglePos value record with one device (VariationIndex) subtable on one device slot; field values symbolic" timeout=2400
+    //@harness fns=ValueRecord::write_into,ValueRecord::format,SinglePosFormat1::write_into,read_fonts::ValueRecord::read note="through the offset model: the device offset must come back on the slot it was written for (x placement)"
     #[kani::proof]
     #[kani::unwind(22)]
     #[kani::stub(std::hash::RandomState::new, fixed_random_state)]
     #[kani::stub(TableWriter::write_slice, write_slice_sink)]
     #[kani::stub(TableWriter::write_offset, write_offset_model)]
-    fn single_pos_value_record_roundtrip() {
-        use crate::tables::gpos::{SinglePosFormat1, ValueRecord};
-        use crate::tables::layout::{CoverageFormat1, CoverageTable, DeviceOrVariationIndex};
-        // enumerated shapes (concrete control flow keeps the model checker's memory bounded), symbolic field values:
-        // metrics absent / all present  x  one device (VariationIndex) table on each of the four device slots
-        let mut shape = 0;
-        while shape < 8 {
-            let mut vr = ValueRecord::new();
-            if shape >= 4 {
-                vr = vr.with_x_placement(kani::any()).with_y_placement(kani::any()).with_x_advance(kani::any()).with_y_advance(kani::any());
-            }
-            let d1 = DeviceOrVariationIndex::variation_index(kani::any(), kani::any());
-            vr = match shape % 4 { 0 => vr.with_x_placement_device(d1), 1 => vr.with_y_placement_device(d1), 2 => vr.with_x_advance_device(d1), _ => vr.with_y_advance_device(d1) };
-            let cov = CoverageTable::Format1(CoverageFormat1::new(vec![GlyphId16::new(kani::any())]));
-            let sp = SinglePosFormat1::new(cov, vr);
-            let _ = roundtrip_value(&sp);
-            shape += 1;
-        }
-        kani::cover!(true);
-    }
+    fn single_pos_device_slot0() { single_pos_with_device_on(0) }
+    //@harness fns=ValueRecord::write_into note="y placement device"
+    #[kani::proof]
+    #[kani::unwind(22)]
+    #[kani::stub(std::hash::RandomState::new, fixed_random_state)]
+    #[kani::stub(TableWriter::write_slice, write_slice_sink)]
+    #[kani::stub(TableWriter::write_offset, write_offset_model)]
+    fn single_pos_device_slot1() { single_pos_with_device_on(1) }
+    //@harness fns=ValueRecord::write_into note="x advance device"
+    #[kani::proof]
+    #[kani::unwind(22)]
+    #[kani::stub(std::hash::RandomState::new, fixed_random_state)]
+    #[kani::stub(TableWriter::write_slice, write_slice_sink)]
+    #[kani::stub(TableWriter::write_offset, write_offset_model)]
+    fn single_pos_device_slot2() { single_pos_with_device_on(2) }
+    //@harness fns=ValueRecord::write_into note="y advance device"
+    #[kani::proof]
+    #[kani::unwind(22)]
+    #[kani::stub(std::hash::RandomState::new, fixed_random_state)]
+    #[kani::stub(TableWriter::write_slice, write_slice_sink)]
+    #[kani::stub(TableWriter::write_offset, write_offset_model)]
+    fn single_pos_device_slot3() { single_pos_with_device_on(3) }
+    //@defaults unit=U04.2 props=C04,C16 tier=quick level=bounded bound="fixed shapes (2 array elements), every field symbolic" timeout=900
     //@harness fns=Gasp::write_into,GaspRange::write_into
     #[kani::proof]
     #[kani::unwind(8)]
